@@ -19,9 +19,9 @@ from engines import recplay as R
 PROP = 'C04'
 
 IN_FAULTS = ['key_unbuildable', 'handler_raises', 'copy_fails', 'unserializable_value', 'discard_in_body',
-             'force_in_body', 'discard_before', 'force_before', 'fallback_raises', 'resolver_raises', 'disable_in_body', 'disable_before', 'discard_in_body_handler_raises']
+             'force_in_body', 'discard_before', 'force_before', 'fallback_raises', 'resolver_raises', 'disable_in_body', 'disable_before', 'discard_in_body_handler_raises', 'raises_opaque']
 OUT_FAULTS = ['handler_raises', 'discard_in_body', 'force_in_body', 'discard_before', 'force_before',
-              'unserializable_value', 'unserializable_argument', 'disable_in_body', 'disable_in_handler', 'disable_before', 'discard_in_body_handler_raises']
+              'unserializable_value', 'unserializable_argument', 'disable_in_body', 'disable_in_handler', 'disable_before', 'discard_in_body_handler_raises', 'raises_opaque']
 
 META = {
     'engine': 'recplay',
@@ -192,7 +192,7 @@ def _run_tape(tape, stack):
     sampling = tape.choice([None, None, {'sampling_rate': 0.0}, {'sampling_rate': 0.5}, {'ignore_enforced_sampling': True, 'sampling_rate': 0.5},
                             {'copy_data_on_intercepion': True}])
     save_raises = tape.draw(6) == 5
-    extractor = tape.choice([None, 'ok', 'ok', 'raises', 'junk_none', 'junk_int', 'junk_str', 'junk_list'])
+    extractor = tape.choice([None, 'ok', 'ok', 'raises', 'junk_none', 'junk_int', 'junk_str', 'junk_list', 'junk_lock'])
     rseed = tape.draw(1000)
     if tape.draw(5) == 4:
         # the service runs with the library's DEBUG logging on: logging is not behaviour
